@@ -14,9 +14,12 @@ package host
 //@   established (*Set).buildHealthyCache Set.healthyCache @cache-members-non-nil typeis(aval[set.healthyCache.Value], "[]*Host") ==> forall k int :: 0 <= k && k < len(unbox(aval[set.healthyCache.Value], "[]*Host")) ==> unbox(aval[set.healthyCache.Value], "[]*Host")[k] != nil
 
 //@ func (*Set).Random
-//@   prop C03 C15
-
+//@   prop C03 C15 C07
+//@   requires set != nil
 //@   modifies nothing
+//@   onlycalls RLock RUnlock (*Set).healthy Intn
+//@   ensures @only-a-host-of-the-preferred-usable-tier-is-selected result != nil ==> has(ite(len(set.healthyMain) == 0, set.healthyBackup, set.healthyMain), result.Addr) || exists a string :: has(ite(len(set.healthyMain) == 0, set.healthyBackup, set.healthyMain), a) && ite(len(set.healthyMain) == 0, set.healthyBackup, set.healthyMain)[a] == result
+//@   witness @only-a-host-of-the-preferred-usable-tier-is-selected a = rangekey
 
 // ---- C15: the host set (invariant over the three maps) --------------------------------------------
 
@@ -215,6 +218,7 @@ package host
 //@   ensures @usable-hosts-are-current-members old(tiersinall(set)) ==> tiersinall(set)
 //@   ensures @cache-describes-the-current-tier cachefresh(set)
 //@   ensures @both-runs-restart atomu64[host.Stats.successfulCount] == 0 && atomu64[host.Stats.failedCount] == 0
+//@   callpre removeFromHealthy @only-the-object-registered-under-its-address-can-take-a-member-out-of-the-usable-tiers has(set.all, host.Addr) && set.all[host.Addr] == host && arg1[0] == host
 
 //@ func NewSet
 //@   prop C15
